@@ -97,9 +97,8 @@ class World(object):
         return arr(r)
 
     def penalty(self, x):
-        v = self.p(vec(x))
-        self.ctx.assume(ge(v, 0))
-        return v
+        # an arbitrary real: barrier / Lagrange penalties are legitimately negative inside the feasible region
+        return self.p(vec(x))
 
     def constraint(self, x):
         xs = vec(x)
@@ -149,9 +148,7 @@ class World(object):
         x = list(x)
         v = self.f(x) if self.ncost == 1 else sumv(self.f(x))
         if self.p is not None:
-            pv = self.p(x)
-            self.ctx.assume(ge(pv, 0))
-            v = v + pv
+            v = v + self.p(x)
         return v
 
     def energy_is(self, E, x):
